@@ -49,6 +49,7 @@ def registers(ctx, P):
     _ensure(ctx, P + "/regs-source", lambda n: c04.rule_regs_source(ctx, R=n))
     _ensure(ctx, P + "/ptrace-requests", lambda n: c04.rule_ptrace_requests(ctx, R=n))
     _ensure(ctx, P + "/fresh-context", lambda n: c04.rule_fresh_context(ctx, R=n))
+    _ensure(ctx, P + "/reg-map", lambda n: c04.rule_reg_map(ctx, R=n))
 
 
 def image_builder(ctx, P):
